@@ -244,7 +244,7 @@ def step (line : String) : String :=
     match fuel.toNat?, runP (do let o ← pOrders; let pr ← pProgram; pure (o, pr)) rest with
     | some fuel, some (o, pr) =>
       match compileWith (pre = "1") fuel o pr with
-      | .ok c => "ok " ++ dumpText c.prog (Acc.ofState c.st)
+      | .ok c => "ok " ++ dumpText c.prog (Acc.ofState c.prog c.st)
       | .err => "err"
       | .fuel => "diverges"
     | _, _ => "bad-op"
